@@ -219,6 +219,9 @@ func c08(tier string) []*explore.Scenario {
 		// the context handed to Serve has a deadline itself: later than every caller's, and in the middle of them
 		out = append(out, c08EndToEndS(stream, 0, false, 20000*time.Hour), c08EndToEndS(stream, 500*time.Microsecond, false, 30*time.Minute))
 	}
+	// requests that wait for a worker of the unary pool (8 per connection) before their handler starts
+	qto := []time.Duration{30 * time.Second, time.Hour, 99999999 * time.Second, 5000 * time.Hour}
+	out = append(out, c08Queued(7, 400*time.Millisecond, qto), c08Queued(8, 400*time.Millisecond, qto), c08Queued(12, 3*time.Second, qto), c08Queued(8, 0, qto))
 	return out
 }
 
@@ -475,6 +478,67 @@ func c08ServeCtxCancelled(stream bool) *explore.Scenario {
 			d.Pipe.A.Break()
 			d.Pipe.B.Break()
 			vsched.Quiesce()
+		},
+	}
+}
+
+// c08Queued: `busy` unary handlers are running (waiting for a gate) when a further unary call
+// with a deadline arrives; with 8 or more busy the request waits for a worker. The gate opens
+// `wait` later (fake clock). The handler's deadline is within [caller's - 1ms, caller's + transit],
+// transit being the time from the call to the handler's start.
+func c08Queued(busy int, wait time.Duration, timeouts []time.Duration) *explore.Scenario {
+	fam := "C08/queued"
+	return &explore.Scenario{
+		Name: fmt.Sprintf("C08/queued/busy=%d/wait=%v", busy, wait), Family: fam, Prop: "C08", Bound: 0, Horizon: time.Nanosecond,
+		Run: func() {
+			w := env.NewWorld()
+			d := env.NewDirect(w, env.DirectOpts{Pipe: env.PipeOpts{Cap: 64}})
+			vsched.Settle()
+			for i, to := range timeouts {
+				gate := make(chan struct{})
+				for b := 0; b < busy; b++ {
+					tag := fmt.Sprintf("busy%d.%d", i, b)
+					r := w.Rec(tag, "Unary")
+					w.Unaries[tag] = func(r *env.Rec, ctx context.Context, in string) (string, error) {
+						<-gate
+						return "ok", nil
+					}
+					vsched.GoNamed("caller-"+tag, func() { w.CallUnary(d.CC, context.Background(), r, "x") })
+				}
+				vsched.Settle()
+				tag := fmt.Sprintf("q%d", i)
+				r := w.Rec(tag, "Unary")
+				var started time.Time
+				w.Unaries[tag] = func(r *env.Rec, ctx context.Context, in string) (string, error) {
+					started = time.Now()
+					return "ok", nil
+				}
+				ctx, cancel := context.WithTimeout(context.Background(), to)
+				callerDl, _ := ctx.Deadline()
+				sendTime := time.Now()
+				vsched.GoNamed("caller-"+tag, func() { w.CallUnary(d.CC, ctx, r, "x") })
+				vsched.Settle()
+				vsched.Sleep(wait)
+				close(gate)
+				vsched.Settle()
+				cancel()
+				if r.HStarts != 1 {
+					vsched.Fail(fam+"|handler-not-run", "%d unary handlers busy, a further call with timeout %v: its handler ran %d times (caller: done=%v err=%v)", busy, to, r.HStarts, r.CDone, r.CErr)
+					continue
+				}
+				dl, has := r.HCtx.Deadline()
+				transit := started.Sub(sendTime)
+				vsched.Obs("busy=%d timeout=%v transit=%v handlerDeadline=%v(%v after the call)", busy, to, transit, has, dl.Sub(sendTime))
+				if !has {
+					vsched.Fail(fam+"|deadline-lost", "%d handlers busy, caller timeout %v: the handler has no deadline", busy, to)
+					continue
+				}
+				if dl.Before(callerDl.Add(-time.Millisecond)) || dl.After(callerDl.Add(transit)) {
+					vsched.Fail(fam+"|deadline-wrong", "%d handlers busy, caller timeout %v, request %v in transit (waiting for a worker included): handler deadline is %v after the call, allowed window [%v, %v]",
+						busy, to, transit, dl.Sub(sendTime), callerDl.Add(-time.Millisecond).Sub(sendTime), callerDl.Add(transit).Sub(sendTime))
+				}
+			}
+			vsched.Count("inputs", int64(len(timeouts)))
 		},
 	}
 }
